@@ -48,7 +48,7 @@ KNOWN_CONSTRUCT = re.compile(b'(?i:' + (_LT + _SL + r'script|<(?:\\x2f|\\u002f|\
 # K2: a?.`tpl` printed for  (a===null||a===undefined)?undefined:a`tpl`   (tagged template on an optional chain is a SyntaxError)
 K_OPTCHAIN_TPL = re.compile(rb'(?:null|undefined)\s*\)?\s*\?\s*(?:undefined|void 0)\s*:[^;]*`')
 # K3: (++b)**2 is printed as ++b**2, which the minifier's own parser rejects on the second pass
-K_UPDATE_POW = re.compile(rb'\(\s*(?:\+\+|--)[^()]*\)\s*\*\*')
+K_UPDATE_POW = re.compile(rb'(?:\+\+|--)\s*[\w.$\[\]\'"]+\s*\)+\s*\*\*')
 # K4: under KeepVarNames an else-block is dissolved into the enclosing block although it declares the same let/const name
 K_ELSE_LET = re.compile(rb'else\s*\{\s*(?:let|const|class)\b')
 # K5: the JSON minifier accepts a document that ends right after a colon and prints it without the colon
@@ -67,6 +67,10 @@ K_EXPORT_EMPTY = re.compile(rb'export\s*\{\s*\}')
 K_SVG_HUGE = re.compile(rb'\bd\s*=\s*["\'][^"\']*(?:[eE]\+?\d{3,}|\d{300,})')
 # K13: SVG path: the "00 -> e2" shortening is applied to the exponent digits of a coordinate (1e100 -> 1e1e2)
 K_SVG_EXP00 = re.compile(rb'\bd\s*=\s*["\'][^"\']*[eE][+-]?\d*00(?!\d)')
+# K14: a parenthesised optional chain used as template tag loses its parentheses: (e?.f)`t` -> e?.f`t` (SyntaxError)
+K_OPTCHAIN_TAG = re.compile(rb'\?\.[^()`;]*\)+\s*`')
+# K15: export default (function(){}()) loses its parentheses: export default function(){}() (SyntaxError)
+K_EXPORT_DEFAULT_FN = re.compile(rb'export\s+default\s*\(+\s*(?:async\s+)?(?:function|class)\b')
 # K10: a processing instruction whose content contains ">" before its "?>" is cut at that ">" by the XML/SVG minifiers
 K_PI_GT = re.compile(rb'<\?(?:(?!\?>)[^>])*(?<!\?)>', re.S)
 
@@ -127,6 +131,10 @@ def excluded(lang, opts, b):
         tags.append('K10')
     if lang in ('svg', 'html') and K_SVG_EXP00.search(b):
         tags.append('K13')
+    if lang in ('js', 'html') and K_OPTCHAIN_TAG.search(b):
+        tags.append('K14')
+    if lang in ('js', 'html') and K_EXPORT_DEFAULT_FN.search(b):
+        tags.append('K15')
     if lang == 'html' and K_SCRIPT_TYPE_CASE.search(b):
         tags.append('K11')
     if lang in ('js', 'html') and ('names' in opts or 'keep' in opts) and same_name_var_and_let(b):
@@ -540,7 +548,8 @@ def run(ctx):
 
     cs = Cases(ctx)
     only_fixed = os.environ.get('VERIF_C09_ONLY') == 'fixed'       # maintenance: fixed repository inputs x every option set
-    only_pinned = os.environ.get('VERIF_C09_ONLY') == 'pinned' or only_fixed     # maintenance switches used to (re)generate known/C09.txt
+    only_ctx = os.environ.get('VERIF_C09_ONLY') == 'ctx'           # maintenance: every JsPrintCtx program, nothing else
+    only_pinned = os.environ.get('VERIF_C09_ONLY') == 'pinned' or only_fixed or only_ctx     # maintenance switches used to (re)generate known/C09.txt
     docs = repo_documents() if not only_pinned or only_fixed else []
     tests = test_strings(ctx) if not only_pinned or only_fixed else collections.defaultdict(list)
     # (a) corpora and benchmark documents
@@ -653,14 +662,14 @@ def run(ctx):
     hot = [t for t in ctxprogs if 'for(' in t[0] and ' in' in t[2].replace("'in", ' in')]
     hotset = set(map(lambda t: (t[0], tuple(t[1]), t[2]), hot))
     cold = [t for t in ctxprogs if (t[0], tuple(t[1]), t[2]) not in hotset]
-    if quick:
+    if quick and not only_ctx:
         chosen_ctx = vlib.sample(hot, 1000, rnd) + vlib.sample(cold, 1000, rnd)
     else:
         cset, dset, pset = ctx_sets()
         two = [(rnd.choice(cset), [rnd.choice(dset), rnd.choice(dset)], rnd.choice(pset)) for _ in range(30000)]
         chosen_ctx = ctxprogs + two
     nctx = 0
-    for c, ds, pay in (chosen_ctx if not only_pinned else []):
+    for c, ds, pay in (chosen_ctx if not only_pinned or only_ctx else []):
         if cs.add('js', 'default' if rnd.random() < 0.8 else rnd.choice(OPTSETS['js'][1:]), data=render_ctx(c, ds, pay),
                   origin='ctx:%s|%s|%s' % (c, '+'.join(ds), pay)) is not None:
             nctx += 1
